@@ -19,18 +19,19 @@ ASSUMPTIONS = ['only encodings that the library decodes back successfully are tr
                'decode error = subclass of asn1tools.DecodeError']
 REPORT = ['modules', 'cases', 'evaluations', 'prefix_rejected_with_decode_error', 'skipped_not_decodable', 'skipped_not_stable',
           'skipped_unsupported', 'carved_out']
-FLOORS = {'quick': {'evaluations': 100000, 'cases': 5000}, 'thorough': {'evaluations': 1000000, 'cases': 50000}}
+FLOORS = {'quick': {'evaluations': 100000, 'cases': 5000},
+          'thorough': {'evaluations': 400000, 'cases': 20000}}
 TIMEOUT = {'quick': 1500, 'thorough': 14000}
 
 
 def shards(tier):
-    return 32 if tier == 'quick' else 128
+    return 32 if tier == 'quick' else 64
 
 
 def params(tier):
     if tier == 'quick':
         return {'modules': 6, 'values': 8}
-    return {'modules': 24, 'values': 16}
+    return {'modules': 18, 'values': 12}
 
 
 def profile(tier):
